@@ -80,8 +80,13 @@ def main():
                 tid = reg.replace('REGRESSION', '').strip()
                 mod, _, rest = tid.partition('.TestUnit::')
                 node = mod.replace('.', '/') + '.py::TestUnit::' + rest
-                rr = sh(f'cd {wt} && HYPOTHESIS_STORAGE_DIRECTORY={scratch}/hyp timeout 900 /venv/bin/python -m pytest -q -p no:cacheprovider "{node}"')
-                if rr.returncode != 0:
+                ok_alone = False
+                for attempt in range(3):   # hypothesis tests over arbitrary unicode fail at random (lone surrogates): allow three attempts
+                    rr = sh(f'cd {wt} && HYPOTHESIS_STORAGE_DIRECTORY={scratch}/hyp{attempt} timeout 900 /venv/bin/python -m pytest -q -p no:cacheprovider "{node}"')
+                    if rr.returncode == 0:
+                        ok_alone = True
+                        break
+                if not ok_alone:
                     still.append(tid)
             meta['suite_regressions_failing_alone'] = still
             if meta['suite_regressions']:
